@@ -479,4 +479,60 @@ theorem genModel_ret_assigned (bad : List Name) (c : Content) (L : Lang) (free :
               simp only [zeroVars, hne', Bool.false_eq_true, if_false, List.mem_filter]
               exact ⟨hv, by simpa using hd⟩
 
+/-! ### `for key in free_parameters: parameters.pop(key)` -/
+
+theorem popAll_spec : ∀ (free : List Name) (m m' : List (Name × Rat)), popAll m free = .ok m' →
+    (∀ k ∈ free, k ∉ omKeys m') ∧ (∀ kv ∈ m', kv ∈ m) ∧ (∀ kv ∈ m, kv.1 ∉ free → kv ∈ m') := by
+  intro free; induction free with
+  | nil =>
+    intro m m' h
+    simp only [popAll, pure, Except.pure, Except.ok.injEq] at h
+    subst h
+    exact ⟨fun k hk => (by cases hk), fun kv h => h, fun kv h _ => h⟩
+  | cons k ks ih =>
+    intro m m' h
+    simp only [popAll] at h
+    split at h
+    · obtain ⟨h1, h2, h3⟩ := ih _ _ h
+      have hsub : ∀ kv ∈ omErase m k, kv ∈ m ∧ kv.1 ≠ k := by
+        intro kv hkv
+        simp only [omErase, List.mem_filter, bne_iff_ne, ne_eq] at hkv
+        exact hkv
+      refine ⟨?_, fun kv hkv => (hsub kv (h2 kv hkv)).1, ?_⟩
+      · intro a ha
+        cases List.mem_cons.mp ha with
+        | inl hak =>
+          subst hak
+          intro hm
+          obtain ⟨kv, hkv, hkv1⟩ := List.mem_map.mp hm
+          exact (hsub kv (h2 kv hkv)).2 hkv1
+        | inr haks => exact h1 a haks
+      · intro kv hkv hnot
+        apply h3 kv
+        · simp only [omErase, List.mem_filter, bne_iff_ne, ne_eq]
+          exact ⟨hkv, fun hk => hnot (hk ▸ List.mem_cons_self)⟩
+        · exact fun hm => hnot (List.mem_cons_of_mem _ hm)
+    · cases h
+
+theorem popAll_missing : ∀ (free : List Name) (m : List (Name × Rat)),
+    (∃ k ∈ free, k ∉ omKeys m) → ∃ k, popAll m free = .error (.keyError k) := by
+  intro free; induction free with
+  | nil => intro m ⟨k, hk, _⟩; cases hk
+  | cons a as ih =>
+    intro m ⟨k, hk, hkm⟩
+    simp only [popAll]
+    split
+    · rename_i ha
+      apply ih
+      cases List.mem_cons.mp hk with
+      | inl hka => subst hka; exact absurd (by simpa using ha) hkm
+      | inr hkas =>
+        refine ⟨k, hkas, ?_⟩
+        intro hm
+        apply hkm
+        obtain ⟨kv, hkv, hkv1⟩ := List.mem_map.mp hm
+        simp only [omErase, List.mem_filter] at hkv
+        exact List.mem_map.mpr ⟨kv, hkv.1, hkv1⟩
+    · exact ⟨a, rfl⟩
+
 end Mxl.C07
